@@ -57,6 +57,9 @@ CHECKS = {
  "C17": ("mc_codec", "4/C17", "exhaustive enumeration of ALL byte strings of length <= 2 (3 thorough) and of every single-field mutation of every valid encoding (incl. out-of-range values and non-minimal forms), each input fed to EVERY decoder, vs reference readers that say what the bytes denote; termination watchdog",
          "No decoder may panic or hang; an accepted value must be the denoted one, canonical and < 2^BITS; alloy-rlp / fastrlp / DER must reject everything but the reference encoding. ~1.6*10^8 decoder executions in the quick tier.",
          "Inputs longer than 3 bytes are single mutations of valid encodings, not all strings. C17 never requires acceptance (that is C16)."),
+ "C20": ("mc_facade", "4/C20", "exhaustive enumeration of operand tuples x ~130 facade entry points (six operator impl shapes, shift operators for 10 amount types and Uint amounts, every forwarded Bits method/operator, num-traits, num-integer, subtle, zeroize, Sum/Product); each execution returns (facade result, inherent result) from the real code, each side under its own catch_unwind",
+         "The reference is the inherent method itself, called by path on the same operands in the same execution; results, Options, flags and panics must agree (a facade may panic only where the inherent method does or where its signature cannot express the inherent None).",
+         "Universes: S(B)^2 for B<=8, limb-alphabet / 2^k+-1 universes at 10 wider widths, every shift/bit argument 0..B+65. Whether the inherent methods themselves are right is decided by C01-C13."),
 }
 
 NOT_YET = {}
